@@ -7,7 +7,7 @@
 set -u
 OUT=$1; N=$2; shift 2
 cd /verif
-SEEDS=${@:-$(ls -d seeded/C??-? | xargs -n1 basename)}
+SEEDS=${@:-$(for d in seeded/C??-?; do [ -e $d/retired ] || basename $d; done)}
 export CARGO_NET_OFFLINE=true
 lane() {
   k=$1; shift
